@@ -87,7 +87,7 @@ CHECKS = {
                 note='Trusted: kt/kt.py, kt/models_date.py (datetime/timedelta/relativedelta/rrule(DAILY/MONTHLY/YEARLY) models, days-from-civil formula), z3. Outside: DATEDIF units MD/YM/YD (not in the statement), YEARFRAC basis 1 and bases 0/4 on days 28-31 '
                      '(US/European conventions differ), NOW/TODAY, serial 60; DATE/EDATE/EOMONTH over ALL years at once (z3 answers unknown) - representative years instead.'),
     'C16': dict(engine='KT+XH', technique='kernel translation of the rounding kernels into z3 reals/ints (one query per function; decimal context precision modelled), one bit-precise QF_FP translation of TRUNC\'s float arithmetic, + CrossHair symbolic execution of every math function with contract stubs for the C library',
-                text='Bounded symbolic model checking: ROUND/ROUNDUP/ROUNDDOWN for EVERY real number in -10^25..10^25 (never an exception), TRUNC in -10^15..10^15, every digit count -10..10, INT, EVEN, FLOOR (integers), CEILING (integers, 9 significances), CEILING/FLOOR of every real in -10^6..10^6 to 7 decimal significances, MOD (integer dividends, 11 divisors) '
+                text='Bounded symbolic model checking: ROUND/ROUNDUP/ROUNDDOWN for EVERY real number in -10^60..10^60 (never an exception), TRUNC in -10^15..10^15, every digit count -10..10, INT, EVEN, FLOOR (integers), CEILING (integers, 9 significances), CEILING/FLOOR of every real in -10^6..10^6 to 7 decimal significances, MOD (integer dividends, 11 divisors) '
                      'equal Excel\'s rounding direction on exact decimal arithmetic; every function of the statement returns a finite number or an Excel error for ALL real arguments when the C library is replaced by its '
                      'documented domain contract (raises / NaN / infinity outside the domain, arbitrary finite value inside), and calls the library function the statement prescribes with the prescribed arguments '
                      '(ATAN2(x,y)=atan2(y,x), LOG(n,b)).',
